@@ -89,7 +89,19 @@ ODD = ["Ù ", "Ù¡", "Ù©", "Ûµ", "ï¼‘", "ï¼™", "Â²", "â‘ ", "à¥§", "Ã©", "âˆ’", "ï
 SEEDS_TP = ["2000-01-02T03:04:05Z", "20000102T030405+0100", "2000-W01-1T00:00", "2000-001T12,5", "+0020000102", "1999-12-31T24:00:00-03:30",
             "2000", "20", "2000-12", "2000W52", "T06", "-W-1", "--0101", "2000-02-29T23:59:59,999999+13:45"]
 SEEDS_DUR = ["P1Y2M3DT4H5M6S", "PT0,5H", "P2W", "-P1D", "P0Y", "PT1S", "P0001-02-03T04:05:06", "P00010203T040506", "P1DT", "PT"]
+EXTREME = ["1e400", "6E999", "9" * 320, "1e3", "1.5e2", "0." + "0" * 30 + "1", "0" * 40 + "1", "1e-400", "inf", "nan", "1_0", "Ù£", "ï¼‘ï¼’"]
 SEEDS_REC = ["R/2000-01-01T00Z/P1D", "R5/2000-01-01T00Z/2000-01-02T00Z", "R3/P1M/2000-03-31T00Z", "R1/20000101T00Z/PT1H", "R/P1Y/2000"]
+
+
+def extreme(rnd, s):
+    """Replace one number by one at the edge of what Python's float()/int() take: exponent forms, overflow to infinity,
+    very long digit runs, non-ASCII digits."""
+    import re
+    runs = list(re.finditer(r"\d+", s))
+    if not runs:
+        return s
+    mm = rnd.choice(runs)
+    return s[:mm.start()] + rnd.choice(EXTREME) + s[mm.end():]
 
 
 def mutate(rnd, s):
@@ -97,6 +109,8 @@ def mutate(rnd, s):
     if not s:
         return rnd.choice(ALPHA)
     i = rnd.randrange(len(s))
+    if x < 0.07:
+        return extreme(rnd, s)
     if x < 0.2:
         return s[:i] + s[i + 1:]
     if x < 0.4:
@@ -171,8 +185,11 @@ def expand(job):
         for _ in range(job["n"]):
             which = rnd.choice(["tp", "tp", "dur", "rec"])
             s = rnd.choice({"tp": SEEDS_TP, "dur": SEEDS_DUR, "rec": SEEDS_REC}[which])
-            for _m in range(rnd.randint(1, 4)):
-                s = mutate(rnd, s)
+            if rnd.random() < 0.06:
+                s = extreme(rnd, s)          # an otherwise well-formed expression with one extreme number
+            else:
+                for _m in range(rnd.randint(1, 4)):
+                    s = mutate(rnd, s)
             if which == "rec":      # cap repetition counts at two digits (DESIGN section 3: cost is linear in days walked)
                 import re
                 s = re.sub(r"^R(\d{3,})", lambda mm: "R" + mm.group(1)[:2], s)
